@@ -174,7 +174,9 @@ func DecodeGoTags(s string) (DecodedIdentifier, error) {
 }
 
 // List from https://github.com/golang/lint/blob/master/lint.go
-var commonInitialisms = []string{"ACL", "API", "ASCII", "CPU", "CSS", "DNS", "EOF", "GUID", "HTML", "HTTP", "HTTPS", "ID", "IP", "JSON", "LHS", "QPS", "RAM", "RHS", "RPC", "SLA", "SMTP", "SQL", "SSH", "TCP", "TLS", "TTL", "UDP", "UI", "UID", "UUID", "URI", "URL", "UTF8", "VM", "XML", "XMPP", "XSRF", "XSS"}
+// extractInitialisms scans this list in order, so an initialism that is a
+// prefix of another one (HTTP/HTTPS, UI/UID) must come after the longer one.
+var commonInitialisms = []string{"ACL", "API", "ASCII", "CPU", "CSS", "DNS", "EOF", "GUID", "HTML", "HTTPS", "HTTP", "ID", "IP", "JSON", "LHS", "QPS", "RAM", "RHS", "RPC", "SLA", "SMTP", "SQL", "SSH", "TCP", "TLS", "TTL", "UDP", "UID", "UI", "UUID", "URI", "URL", "UTF8", "VM", "XML", "XMPP", "XSRF", "XSS"}
 
 // Given an entirely uppercase string, extract any initialisms sequentially from the start of the string and return them with the remainder of the string
 func extractInitialisms(s string) []string {
